@@ -651,14 +651,14 @@ MeasureProgs ==
 
 \* elements and domains: the same integrands over varied tables
 ElemProgs ==
-  LET tabs == {<<fam, deg, map, sob>> : fam \in {1, 2}, deg \in {1, 2}, map \in {1, 2}, sob \in {1, 3}}
+  LET tabs == {<<fam, deg, map, sob>> : fam \in {1, 2}, deg \in (IF Lvl = 1 THEN {1} ELSE {1, 2}), map \in {1, 2}, sob \in {1, 3}}
       T(x) == [Prog(<<Itg(1, <<0>>, Emp, 1, B_("inner", A_(1, 3), A_(0, 3)))>>)
                EXCEPT !.elems = [@ EXCEPT ![3] = <<x[1], x[2], 1, x[3], x[4], 0, 1>>]]
-      doms == {<<c, g, k>> : c \in {1, 2}, g \in {2, 3}, k \in {1, 2}}
+      doms == {<<c, g, k>> : c \in {1, 2}, g \in {2, 3}, k \in (IF Lvl = 1 THEN {1} ELSE {1, 2})}
       Dm(x, g) == [Prog(<<Itg(1, <<0>>, Emp, 1, g)>>) EXCEPT !.doms = [@ EXCEPT ![1] = <<x[1], x[2], x[3], 4>>]]
   IN {T(x) : x \in tabs}
-     \cup {Dm(x, g) : x \in doms, g \in {B_("prod", A_(1, 1), A_(0, 1)), B_("prod", G_(1, 1), F_(8)), B_("prod", K_(1), G_(2, 2)),
-                                         B_("inner", F_(6), F_(7)), X_(G_(10, 1), <<0>>)}}
+     \cup {Dm(x, g) : x \in doms, g \in {B_("prod", A_(1, 1), A_(0, 1)), B_("prod", K_(1), G_(2, 2)), X_(G_(10, 1), <<0>>)}
+                                        \cup (IF Lvl = 1 THEN {} ELSE {B_("prod", G_(1, 1), F_(8)), B_("inner", F_(6), F_(7))})}
      \cup {[One(B_("inner", F_(6), F_(7))) EXCEPT !.elems = [@ EXCEPT ![4] = <<1, d, 2, 1, 1, s, 1>>]] : d \in {1, 2}, s \in {0, 1}}
 
 SeedSeq == JsonDeserialize("seeds.json")
